@@ -15,7 +15,7 @@ from ..fa import FA
 from ..loader import AnalysisError
 from .valeq import check_typed_identity, check_json_bytes, check_enum_distinct
 from .ladders import extract_ladder, check_ladder_order, repo_subclass_pairs
-from .fresh import flow_nodes, alternatives, param_rooted, return_cases, at_of
+from .fresh import flow_nodes, alternatives, value_cases, param_rooted, return_cases, at_of, attr_writes, guarded_cases
 
 MC = "serialization.MementoCodec"
 
@@ -326,6 +326,132 @@ def check_decoders_pure(ck, R):
                 ok = ok and per_element
     ck.ob(R, di.key(None, "invocations-one-by-one"), ok, "each recorded invocation is decoded from its own state" if ok else
           "recorded invocations are not decoded one by one with decode_fn_reference_with_args(<element>)", di.where())
+
+
+# ---- what the decoder supplies reaches the rebuilt reference ------------------------------------------------
+def _site_args(fa: FA, call, params):
+    """{callee parameter: value expr} of a construction site; a `**opts` whose value is one dict literal is
+    opened up.  None when the binding cannot be told."""
+    plain = ast.Call(func=call.func, args=call.args, keywords=[k for k in call.keywords if k.arg is not None])
+    out = _call_args(plain, params)
+    if out is None:
+        return None
+    for k in call.keywords:
+        if k.arg is None:
+            alts = alternatives(fa, k.value, at_of(fa, call))
+            items = _dict_items(alts[0][0]) if len(alts) == 1 else None
+            if items is None or any(key is None for key, _ in items):
+                return None
+            for key, v in items:
+                out[key] = v
+    return out
+
+
+def _carried(fa: FA, value, at, param):
+    """Does the value handed on at a site carry what the function received as `param`: every value it may
+    hold is computed from the parameter, except stand-ins used only where the parameter is absent (None / empty).
+    -> (ok, the offending case or None)"""
+    absent = {("%s is None" % param, True), (param, False)}
+    derived = 0
+    memo = {}
+
+    def only_when_absent(node_id):
+        """Is the cfg node reached only where the parameter is absent?"""
+        if node_id not in memo:
+            conds = fa.conditions(node_id)
+            if conds is None:
+                raise AnalysisError("%s: too many paths to tell when `%s` is used" % (fa.qual, A.short(value, 40)))
+            memo[node_id] = bool(conds) and all(c & absent for c in conds)
+        return memo[node_id]
+
+    for (case, a_, lits) in guarded_cases(fa, value, at):
+        if case[0] == "param":
+            if case[1] == param:
+                derived += 1
+                continue
+            dep = False
+        else:
+            dep = ("param:" + param) in fa.df.deps(case[1], a_)
+        if dep:
+            derived += 1
+            continue
+        if set(lits) & absent or only_when_absent(at) or (a_ != at and only_when_absent(a_)):
+            continue
+        return False, (case[1] if case[0] == "expr" else ast.Name(id=case[1], ctx=ast.Load()))
+    return derived > 0, None
+
+
+PART_KEYS = {"cluster_name": "cluster", "module_name": "module", "function_name": "function", "version": "version"}
+CARRIED = ("partial_args", "partial_kwargs", "parameter_names")
+
+
+def check_reference_fields_carried(ck, R):
+    """A decoded reference is rebuilt from what the decoder read off the encoded state: its name parts, partial
+    arguments and parameter names.  Whichever way from_qualified_name builds the reference — the function found
+    locally, or the external stand-in (asked for, or fallen back to when the lookup fails) — the values it was
+    handed reach the constructed object: at every construction site, and through the stand-in's own constructor
+    down to the fields of the reference."""
+    fq = FA(ck, "reference.FunctionReference.from_qualified_name")
+    own = [p for p in fq.fi.params if p not in ("self", "cls")]
+    ck.need(all(p in own for p in CARRIED), "from_qualified_name no longer takes %s" % (CARRIED,))
+    stub_params = _ctor_params(ck, "external.UnboundExternalMementoFunction")
+    ref_params = _ctor_params(ck, "reference.FunctionReference")
+
+    def site(fa, call, params, carried, parts, what):
+        given = _site_args(fa, call, params)
+        if given is None:
+            raise AnalysisError("%s: cannot tell which arguments `%s` receives" % (fa.qual, A.short(call, 50)))
+        at = at_of(fa, call)
+        for p in carried:
+            if p not in given:
+                ck.ob(R, fa.key(call, "carried:" + p), False, "%s is built without %s: the %s read off the encoded state is lost" % (what, p, p), fa.where(call))
+                continue
+            ok, bad = _carried(fa, given[p], at, carried[p])
+            ck.ob(R, fa.key(call, "carried:" + p), ok, "%s receives the %s it was handed" % (what, p) if ok else
+                  "%s is built with %s=`%s`, not with the %s that %s was handed: a decoded reference taking this path loses the "
+                  "value stored in the encoded state (positional arguments can no longer be bound / the argument hash of a "
+                  "function-valued argument changes)" % (what, p, A.short(bad, 40) if bad is not None else A.short(given[p], 40), carried[p], fa.fi.name), fa.where(call))
+        for p, key in parts.items():
+            v = given.get(p)
+            fl = flow_nodes(fa, v, at) if v is not None else []
+            keys = {n.value for (n, a_) in fl if isinstance(n, ast.Constant) and n.value in PART_KEYS.values()}
+            parsed = any(isinstance(n, ast.Call) and A.call_attr(n) == "parse_qualified_name" for (n, a_) in fl)
+            if key in keys and len(keys) > 1:
+                raise AnalysisError("%s: cannot tell which part of the parsed name `%s` is" % (fa.qual, A.short(v, 40)))
+            ok = parsed and keys == {key}
+            ck.ob(R, fa.key(call, "part:" + p), ok, "%s is the %r part of the parsed name" % (p, key) if ok else
+                  "%s is built with %s=`%s`, not with the %r part of the qualified name that was decoded" % (what, p, A.short(v, 40) if v is not None else "<default>", key), fa.where(call))
+
+    stubs = fq.calls("UnboundExternalMementoFunction")
+    for c in stubs:
+        site(fq, c, stub_params, {p: p for p in CARRIED}, PART_KEYS, "the external stand-in")
+    refs = [c for c in fq.calls("FunctionReference") if isinstance(c.func, ast.Name)]
+    for c in refs:
+        site(fq, c, ref_params, {p: p for p in CARRIED[:2]}, {"cluster_name": "cluster", "version": "version"}, "the local reference")
+    ck.need(stubs and refs, "from_qualified_name: no construction site of a stand-in / a local reference found")
+    # the stand-in hands everything on to the reference it creates for itself
+    ue = FA(ck, "external.UnboundExternalMementoFunction.__init__")
+    inner = [c for c in ue.calls("FunctionReference") if isinstance(c.func, ast.Name)]
+    ck.need(inner, "UnboundExternalMementoFunction.__init__ no longer builds its FunctionReference")
+    passed = [p for p in list(PART_KEYS) + list(CARRIED) if p in stub_params and p in ref_params]
+    for c in inner:
+        site(ue, c, ref_params, {p: p for p in passed}, {}, "the stand-in's own reference")
+    # ... which keeps them in its fields
+    fi = FA(ck, "reference.FunctionReference.__init__")
+    for (field, p) in (("self._partial_args", "partial_args"), ("self._partial_kwargs", "partial_kwargs"), ("self.parameter_names", "parameter_names")):
+        ws = [(st, v) for (st, v, _aug) in attr_writes(fi, field) if fi.nodes(st)]
+        bad = None
+        n_ok = 0
+        for (st, v) in ws:
+            ok, b = _carried(fi, v, fi.nodes(st)[0], p)
+            if ok:
+                n_ok += 1
+            elif b is not None:
+                bad = (st, b)
+        okf = bool(ws) and n_ok > 0 and bad is None
+        ck.ob(R, fi.key(None, "kept:" + p), okf, "%s keeps the %s the reference was built with" % (field, p) if okf else
+              "%s does not keep the %s handed to the constructor%s" % (field, p, " (it can hold `%s` although %s was given)" % (A.short(bad[1], 40), p) if bad else ""),
+              fi.where(bad[0]) if bad else fi.where())
 
 
 # ---- argument tags ----------------------------------------------------------------------------------------
@@ -655,7 +781,13 @@ def check(ck):
     for (name, fields, cparams_) in (("fn_reference_with_args", ("args", "kwargs", "contextArgs"), ("args", "kwargs", "context_args")),
                                      ("fn_reference", ("partialArgs", "partialKwargs"), ("partial_args", "partial_kwargs"))):
         enc, d = em_by_pair[name]
-        typed = [f for f in fields if d.get(f) and all(_calls_in_flow(enc, v, a_, "encode_arg") for (v, a_) in d[f])]
+        # (every value a field may hold — the arms of a conditional expression, the values stored on the branches
+        # of an if — is built by encode_arg, except the null that stands for a missing collection)
+        typed = []
+        for f in fields:
+            vals = [(x, a2) for (v, a_) in d.get(f, []) for (x, a2) in value_cases(enc, v, a_) if not A.is_none(x)]
+            if vals and all(_calls_in_flow(enc, x, a2, "encode_arg") for (x, a2) in vals):
+                typed.append(f)
         n, want = len(typed), len(fields)
         ck.ob(R3, enc.key(None, "typed-args"), n == want, "all %d argument collections use %s" % (want, "encode_arg") if n == want else
               "%s uses %s for %d of %d argument collections" % (enc.fi.name, "encode_arg", n, want), enc.where())
@@ -663,7 +795,10 @@ def check(ck):
         n = 0
         if name in ctor_by_pair:
             _, given, at = ctor_by_pair[name]
-            n = len([p for p in cparams_ if p in given and _calls_in_flow(dec, given[p], at, "decode_arg")])
+            for p in cparams_:
+                vals = [(x, a2) for (x, a2) in value_cases(dec, given[p], at) if not A.is_none(x)] if p in given else []
+                if vals and all(_calls_in_flow(dec, x, a2, "decode_arg") for (x, a2) in vals):
+                    n += 1
         ck.ob(R3, dec.key(None, "typed-args"), n == want, "all %d argument collections use %s" % (want, "decode_arg") if n == want else
               "%s uses %s for %d of %d argument collections" % (dec.fi.name, "decode_arg", n, want), dec.where())
 
@@ -684,3 +819,4 @@ def check(ck):
     ck.run(check_enum_distinct, ck, "C11.R3")
     ck.run(check_json_bytes, ck, "C11.R3", ["storage_base.DataSourceMetadataSource.put_memento", "storage_base.DefaultCodec.JsonExceptionStrategy.encode"])
     ck.run(check_decoders_pure, ck, "C11.R2")
+    ck.run(check_reference_fields_carried, ck, "C11.R2")
